@@ -138,6 +138,7 @@ func (c *c02gen) runDoc(r *rng, desc *thrift.TypeDescriptor, dfs []string, optBi
 	opts := conv.Options{DisallowUnknownField: optBits&1 != 0, String2Int64: optBits&2 != 0, NoBase64Binary: optBits&4 != 0, EnableValueMapping: optBits&8 != 0}
 	cv := c02Conv(r, opts, desc, []byte("{}"))
 	c.emit(optBits, c.oobLookups(keys), doc, c02Run(r, &cv, desc, doc, full), dfs)
+	c02EmitPortable(optBits, doc, desc, dfs)
 }
 
 func (c *c02gen) printVal(r *rng, optBits int, v *Val, style int) *c02printer {
@@ -381,7 +382,7 @@ func genC02Special(r *rng, class int) int {
 			{ID: 9, Name: "rq", T: sc(thrift.I32), Req: 1},
 		}
 		c := c02Manual(r.fork(), W, WI)
-		desc, _ := c.prepare()
+		desc, dfs6 := c.prepare()
 		docs := []string{`{"a":null}`, `{"s":"x","a":null}`, `{"in":{"x":null}}`, `{"in":{"s":"q","x":null},"a":null}`, `{"o":null}`, `{"a":1,"o":null}`,
 			`{"a":null,"s":"x"}`, `{}`, `{"in":{},"d":null}`, `{"l":[1,2],"m":{"k":null},"s":null}`, `{"rq":1,"a":null}`, `{"rq":null}`, `{"in":{"x":null},"rq":2}`,
 			`{"a":null }`, `{"zz":1,"a":null}`, `{"a":null,"zz":null}`, `{"l":null}`, `{"in":null}`, `{"in":{"x":1,"s":null}}`}
@@ -399,6 +400,7 @@ func genC02Special(r *rng, class int) int {
 				f = append(f, fi(x.cap), fx(x.pre), fi(x.ec), fx(x.out))
 			}
 			out.emit(202, f...)
+			c02EmitPortable(wb<<0, doc, desc, dfs6)
 			n++
 		}
 	case 4: // hand-written deviations and malformed texts on a fixed shape (each line: option bits, text)
